@@ -51,6 +51,8 @@ def model_line(op, out, st):
     f = op.split()
     left, right = split(out)
     rt = right.split()
+    if left.startswith("bad-op"):
+        return "badop"
     if f[0] == "init":
         n, thr = int(f[2]), int(f[3])
         specs = [f"{thr}:{thr}:{(1 << n) - 1:x}:0"] + f[7:]
@@ -114,6 +116,8 @@ def run_impl(seqs, twice=True):
                     raise core.Broken("harness:agg", "short transcript")
                 if b != s.impl:
                     s.flaky = True
+                    j = next((k for k, (x, y) in enumerate(zip(s.impl, b)) if x != y), None)
+                    s.why_skip = None if j is None else {"op": s.ops[j], "run1": s.impl[j][:300], "run2": b[j][:300]}
                 i += len(s.ops)
 
 
@@ -196,7 +200,29 @@ class Tracker:
 
 
 def oracle(s):
-    """C01 + C03 evaluated on the implementation's answers of one sequence. Returns (why, op index) or None."""
+    """C01 + C03 evaluated on the implementation's answers of one sequence. Returns (code, why, op index) or None."""
+    r = _oracle(s)
+    if r is None:
+        return None
+    why, i = r
+    return (code_of(why), why, i)
+
+
+CODES = [("got stuck or crashed", "stuck"), ("the partial the node broadcast", "own-partial"), ("base store Put", "put-invalid"), ("labelling inconsistent", "labels"),
+         ("aggregation stored round", "agg-wrong-round"), ("created by aggregation after only", "below-threshold"),
+         ("does not verify under the group key", "served-invalid"), ("is not sha256", "randomness"), ("without randomness", "randomness"),
+         ("asked for round", "wrong-round"), ("returned the beacon of round", "wrong-round"), ("never stored", "served-not-stored"),
+         ("latest is round", "latest-not-head"), ("sent an earlier round", "stream-earlier-round")]
+
+
+def code_of(why):
+    for sub, code in CODES:
+        if sub in why:
+            return code
+    return "other"
+
+
+def _oracle(s):
     tr = Tracker(s.ops[0])
     for i, (op, out) in enumerate(zip(s.ops, s.impl)):
         f = op.split()
@@ -218,6 +244,8 @@ def oracle(s):
             j = rt.index("b")
             if (rfield(right, "vb") == "1") != (rt[j + 2] == rfield(right, "gs")):
                 return ("harness labelling inconsistent: VerifyBeacon disagrees with equality to the group signature", i)
+        if f[0] == "own" and rfield(right, "bcsame") == "0":
+            return ("the partial the node broadcast is not its share's signature on the digest of (head+1, head signature)", i)
         # --- C03 bookkeeping and check
         agg_op = f[0] in ("deliver", "replay", "own")
         if agg_op:
@@ -590,7 +618,8 @@ def gen_c03(rng, scheme, n, t, backend, polyseed, exhaustive, nrandom):
         for m in order:
             for c in corrupted:
                 if rng.chance(1, 3):
-                    kind = rng.choice(["wrongshare", "wronground", "wrongprev-signed", "flip", "trunc", "nonmember", "replay", "oldpoly"])
+                    kind = rng.choice(["wrongshare", "wronground", "flip", "trunc", "nonmember", "replay"] +
+                                      (["wrongprev-signed"] if g.chained else []))
                     if kind in ("wrongshare",):
                         i = (c + 1) % n
                         g.ops.append(f"deliver {i} 0 {R} T{g.H} {R} T{g.H} {c} - -")
